@@ -2117,6 +2117,22 @@ impl BytecodeVM {
         }
     }
 
+    /// Resume a frame that was suspended by await / order() with an exception instead of a
+    /// value: the exception is raised at the suspension point like any other error, so a
+    /// handler in an outer frame catches it and an async function without a handler
+    /// rejects its promise. Returns false when nothing handles it (the caller propagates
+    /// the exception, which is left in `exception_value`).
+    pub fn resume_with_exception(&mut self, interp: &mut Interpreter, exception: JsValue) -> bool {
+        let guarded = Guarded::from_value(exception.clone(), &interp.heap);
+        match self.handle_error_with_trampoline_unwind(interp, JsError::ThrownValue { guarded }) {
+            Ok(()) => true,
+            Err(_) => {
+                self.exception_value = Some(Guarded::from_value(exception, &interp.heap));
+                false
+            }
+        }
+    }
+
     /// Execute a single opcode
     /// Abstract relational comparison: operands are converted to primitives (hint
     /// number); two strings are compared by UTF-16 code units, anything else numerically.
